@@ -13,7 +13,8 @@ def cases(draw, procs=False):
     spec = draw(gen.worlds(max_layers=6, min_layers=2, hooks='any', faults=faults, nie=nie,
                            kinds=('pass', 'pass', 'fail', 'error', 'skip_body'), max_modules=2, depth=2,
                            max_tests=3, weights_good=80, layer_decl=90, explicit_unit=True, max_children=4))
-    if draw(st.integers(0, 5)) == 0:
+    # (NotImplementedError tear-downs only matter in directed topologies: half of the procs worlds are shaped)
+    if draw(st.integers(0, 1 if procs else 5)) == 0:
         spec = draw(gen.shaped_world(nie=procs))
     # layer-level hooks should be common, otherwise the trace sees little
     for L in spec['layers']:
@@ -125,6 +126,39 @@ class Procs(Part):
         return oracle(spec, case['opts'], run, True)
 
 
+class Sched(Part):
+    """-j N (with and without -x) under a harness-owned schedule: the layer subprocesses wait at barrier points inside
+    their tests and are released one at a time; whatever one child's outcome makes the parent do, the stack discipline
+    holds in every process (in particular: every layer that was set up gets its tear-down)"""
+    name = 'sched'
+    examples = {'quick': 32, 'thorough': 600}
+    shrink_cap = {'quick': 60, 'thorough': 300}
+
+    def strategy(self, tier):
+        from . import c16
+        return st.tuples(c16.sched_cases(), st.booleans()).map(lambda x: dict(x[0], stop=x[1]))
+
+    def execute(self, case):
+        import copy
+
+        from . import c06
+        spec = common.with_prefix(copy.deepcopy(case['spec']))
+        args = (['-x'] if case['stop'] else []) + ['-j', str(case['n'])] + ['-v'] * case['verbose']
+        with drive.World(spec) as W:
+            run, info = c06.run_scheduled(W, args, case['n'], dict(case['barriers']), case['prio'], settle=0.5)
+        viol = []
+        if info['parent_timeout'] or run.exit not in (0, 1) or 'Traceback (most recent call last)' in run.err:
+            viol.append(('C01/run-aborted/sched', 'exit status %s (timeout %s), stderr: %s'
+                         % (run.exit, info['parent_timeout'], run.err[-300:])))
+        w = traceana.World(spec)
+        if not viol:
+            for pid, evs in traceana.by_pid(run.trace).items():
+                viol += traceana.check_layer_stack(w, evs, ' (parent)' if pid == run.main_pid else ' (child)')
+        first = case['prio'][0] == case['bad']
+        labels = ['N=%d' % case['n'], '-x' if case['stop'] else 'no -x'] + (['bad-layer-finishes-first'] if first else [])
+        return Outcome(viol, labels, first and not info['stalled'])
+
+
 class C01(Prop):
     id = 'C01'
     registered = True
@@ -140,7 +174,7 @@ class C01(Prop):
     assumptions = ('hooks log the layer they are called on; class layers inherit hooks (runner uses hasattr)',
                    'a layer with only one of setUp/tearDown is observed through the hook it has; hook-less layers '
                    'are observed through the runner\'s own "Set up"/"Tear down" lines')
-    parts = (InProc(), Procs())
+    parts = (InProc(), Procs(), Sched())
 
 
 PROP = C01()
